@@ -46,8 +46,8 @@ theorem parseChains_vf (conn : Option Bool) (s : List Char) : VF (parseChains tr
   all_goals intro h hh
   all_goals try (cases h; done)
   · rename_i e' hs; cases h; exact parseStart_vf _ _ _ hs
-  · rename_i e' hm; cases h; exact parseMiddle_vf _ _ _ hm
-  · rename_i e' he; cases h; exact parseEnd_vf _ _ _ he
+  · rename_i e' hm; cases h; exact parseMiddle_vf _ _ _ _ hm
+  · rename_i e' he; cases h; exact parseEnd_vf _ _ _ _ he
   · rename_i e' hc ih; cases h
     exact ih hc (parseChains_never_hangs _ _ _)
   · exact absurd rfl hh
@@ -97,7 +97,7 @@ theorem serializeMulti_ok (plus : Bool) (as : List Annotation) (conns : List (Op
       | nil => simp at h
       | cons cn conns' =>
         obtain ⟨t, ht⟩ := ih conns' (by simp at h ⊢; omega)
-        exact ⟨_, by simp [serializeMulti, ht]⟩
+        exact ⟨serialize plus a ++ ((if cn = some true then ['\\', '\\'] else ['+']) ++ t), by simp [serializeMulti, ht]⟩
 
 /-- **Whatever the parser accepts can be serialized** (either `include_plus`): `serialize` is a total function of the
 model for single annotations, and for multi-chain results the connection list the parser builds is long enough. -/
